@@ -80,6 +80,9 @@ func vhC16InboundOffer() {
 	vmEnv.readFails = vsBool("read-fails")
 	vmEnv.stream = vsBytes("stream", 4)
 	keys := [][]byte{vsBytesN("key", 32)}
+	if vsBool("another-offer-admitted-during-the-wait") {
+		vmEnv.concurrentTaker = p.Utp.GetInboundPermit
+	}
 	_, err := p.handleOffer(peer, &net.UDPAddr{}, &Offer{ContentKeys: keys})
 	vsAssert(err == nil, "offer-answered")
 	if vsPendingTasks() > 0 {
@@ -87,6 +90,13 @@ func vhC16InboundOffer() {
 		vsCover("receiving")
 	}
 	vsRunTasks()
+	if vmEnv.concurrentOK {
+		// the receive task released its slot early and again when it ended; the slot of the offer
+		// admitted in between belongs to that offer until IT gives it back
+		vsAssert(vhFreeSlots(p.Utp.GetInboundPermit, limit) == limit-1, "a-late-second-release-frees-nobody-elses-slot")
+		vmEnv.concurrentPermit.Release()
+		vsCover("another-offer-admitted")
+	}
 	vsAssert(vhFreeSlots(p.Utp.GetInboundPermit, limit) == limit, "inbound-slot-returned")
 }
 
